@@ -32,6 +32,10 @@ def pair(x):
     return (x, x + 1)
 
 
+def neg(x):
+    return -x
+
+
 def accrs(st, x):
     return (st + x, st * 10 + x)
 
@@ -57,6 +61,10 @@ PROGS = {
     "zipself": lambda s: s.map(inc).zip(s.map(times10)),
     "zipself.starmap": lambda s: s.map(inc).zip(s.map(times10)).starmap(add),
     "fanout.union": lambda s: s.map(inc).union(s.map(times10)),
+    # one emit delivers three elements to partition(2): the third arrives while the flush of
+    # the first two is still being delivered through gather
+    "fan3.union.partition": lambda s: s.map(inc).union(s.map(times10), s.map(neg)).partition(2),
+    "fan3.union.sw": lambda s: s.map(inc).union(s.map(times10), s.map(neg)).sliding_window(2),
 }
 PROGS2 = {
     "zip": lambda a, b: a.zip(b),
